@@ -64,6 +64,9 @@ type Exec struct {
 	retSites int
 	iterMap map[*ssa.Range]Val
 	requiresPrefix int
+	loopPreserve map[*loopInfo]map[string]int
+	refined *FuncContract
+	refBinders map[string]Val
 	undef map[string]Val
 	retCount int
 }
@@ -245,9 +248,38 @@ func (x *Exec) run() (err error) {
 	// requires
 	x.cur = x.fn.Blocks[0]
 	x.guard = "true"
+	x.refined = nil
 	if x.fc != nil {
+		if k, ok := x.fc.Opts["refines"]; ok {
+			rc := e.cs.Funcs[k]
+			if rc == nil {
+				x.fail("refines: unknown contract %s", k)
+			}
+			x.refined = rc
+			binders := map[string]Val{}
+			for i, pn := range rc.Params {
+				if i < len(x.fn.Params) {
+					binders[pn] = x.vals[x.fn.Params[i]]
+				}
+			}
+			x.refBinders = binders
+			for _, c := range rc.Requires {
+				env := &Env{x: x, st: x.st, old: x.entry, binders: binders, bound: map[string]Val{}, closed: true}
+				e.assume("", x.evalBool(c.Expr, env, c))
+			}
+		}
+		caps := map[string]bool{}
+		for _, l := range splitList(x.fc.Opts["capture"]) {
+			caps[l] = true
+		}
 		for _, c := range x.fc.Requires {
 			t := x.evalBool(c.Expr, x.envAt(nil), c)
+			if x.refined != nil && !caps[c.Label] {
+				// the closure is only ever called through the refined contract:
+				// its own precondition must follow from that contract's
+				tags := splitList(strings.Trim(x.fc.Opts["refinetags"], "[]"))
+				x.oblige("refine-pre", c.Label, tags, len(tags) == 0, t, c.Src, c.Where)
+			}
 			e.assume("", t)
 		}
 	}
@@ -478,9 +510,30 @@ func (x *Exec) loopEntry(li *loopInfo, phiVal func(*ssa.Phi, func(*ssa.BasicBloc
 	brkPre := e.heapGet(preLoop, "brk")
 	if _, all := mods["*"]; all {
 		delete(mods, "*")
-		e.note("%s: loop %d calls an uncontracted function: all state havoced at the loop head", x.name, li.ordinal)
+		// keys every havoc-everything callee preserves and nothing else in the loop modifies
+		keep := map[string]string{}
+		if lp := x.loopPreserve[li]; lp != nil {
+			for k, n := range lp {
+				if k != "#stars" && n == lp["#stars"] {
+					if _, modified := mods[k]; !modified {
+						keep[k] = e.heapGet(x.st, k)
+					}
+				}
+			}
+		}
+		if len(keep) == 0 {
+			e.note("%s: loop %d calls a function that may modify everything: all state havoced at the loop head", x.name, li.ordinal)
+		}
+		saved := map[string]string{}
+		for k := range mods {
+			saved[k] = mods[k]
+		}
 		x.havocAll()
+		for k, v := range keep {
+			x.st.H[k] = v
+		}
 		mods = map[string]string{}
+		_ = saved
 	}
 	var keys []string
 	for k := range mods {
@@ -589,6 +642,18 @@ func (x *Exec) loopModset(li *loopInfo) map[string]string {
 				}
 				for _, a := range x.calleeAssigns(c) {
 					add(a.key, a.mode)
+					if a.key == "*" {
+						if x.loopPreserve == nil {
+							x.loopPreserve = map[*loopInfo]map[string]int{}
+						}
+						if x.loopPreserve[li] == nil {
+							x.loopPreserve[li] = map[string]int{}
+						}
+						x.loopPreserve[li]["#stars"]++
+						for _, pk := range a.preserves {
+							x.loopPreserve[li][pk]++
+						}
+					}
 				}
 				if x.fc != nil {
 					for _, at := range x.fc.Ats {
@@ -1199,6 +1264,7 @@ type assignItem struct {
 	key  string
 	mode string // any | new
 	at   SExpr
+	preserves []string // for key "*": keys the callee leaves unchanged
 }
 
 func (x *Exec) storeInstr(in *ssa.Store) {
@@ -1314,8 +1380,16 @@ func (x *Exec) returnInstr(in *ssa.Return) {
 	env := x.envAt(rs)
 	for _, c := range x.fc.Ensures {
 		t := x.evalBool(c.Expr, env, c)
-		o := x.oblige("post", c.Label, c.Tags, len(c.Tags) == 0, t, c.Src, c.Where+" @return "+x.pos(in.Pos()))
-		_ = o
+		x.oblige("post", c.Label, c.Tags, len(c.Tags) == 0, t, c.Src, c.Where+" @return "+x.pos(in.Pos()))
+	}
+	if x.refined != nil {
+		renv := &Env{x: x, st: x.st, old: x.entry, binders: x.refBinders, bound: map[string]Val{}, closed: true, results: rs, resNames: x.refined.Results}
+		tags := splitList(strings.Trim(x.fc.Opts["refinetags"], "[]"))
+		for _, c := range x.refined.Ensures {
+			t := x.evalBool(c.Expr, renv, c)
+			ts := append(append([]string(nil), c.Tags...), tags...)
+			x.oblige("refine", c.Label, ts, len(ts) == 0, t, c.Src, c.Where+" @return "+x.pos(in.Pos()))
+		}
 	}
 }
 
@@ -1462,6 +1536,32 @@ func (x *Exec) makeClosure(in *ssa.MakeClosure) {
 		e.assume(x.guard, fmt.Sprintf("(= (%s %s) %s)", fnm+"!"+sanitize(bv.Sort), r, bv.T))
 	}
 	x.vals[in] = Val{T: r, Sort: "Int", GT: in.Type()}
+	// capture obligations: requires-clauses of the closure listed under
+	// `opt capture` are checked here, with free variables bound to the
+	// captured cells' current contents
+	if cfc := e.cs.Funcs[shortName(fn)]; cfc != nil && cfc.Opts["capture"] != "" {
+		binders := map[string]Val{}
+		for i, fv := range fn.FreeVars {
+			if i < len(in.Bindings) {
+				pt := deref(fv.Type())
+				l := x.locOf(in.Bindings[i])
+				binders[fv.Name()] = Val{T: e.load(x.st, l), Sort: e.sortOf(pt), GT: pt}
+			}
+		}
+		caps := map[string]bool{}
+		for _, l := range splitList(cfc.Opts["capture"]) {
+			caps[l] = true
+		}
+		for _, c := range cfc.Requires {
+			if !caps[c.Label] {
+				continue
+			}
+			env := &Env{x: x, st: x.st, old: x.entry, binders: binders, bound: map[string]Val{}, closed: true}
+			t := x.evalBool(c.Expr, env, c)
+			x.oblige("capture", shortCallee(shortName(fn))+"."+c.Label, c.Tags, len(c.Tags) == 0, t, c.Src, c.Where+" @capture "+x.pos(in.Pos()))
+		}
+		e.assumptionsUsed["capture obligations: a closure's `capture` precondition is checked where the closure is created and assumed stable until it runs (captured cells are not written afterwards: checked syntactically for the cells named)"] = true
+	}
 }
 
 func (x *Exec) makeSlice(in *ssa.MakeSlice) {
@@ -1596,9 +1696,18 @@ func (x *Exec) envAtHeader(li *loopInfo) *Env {
 // lookupName resolves a source-level name at the current point.
 func (x *Exec) lookupName(name string, at *ssa.BasicBlock, st *State, allowUndef bool) (Val, bool) {
 	e := x.enc
-	for _, p := range x.fn.Params {
-		if p.Name() == name {
-			return x.vals[p], true
+	paramVal := func() (Val, bool) {
+		for _, p := range x.fn.Params {
+			if p.Name() == name {
+				return x.vals[p], true
+			}
+		}
+		return Val{}, false
+	}
+	if st == x.entry && st != x.st {
+		// old(...): a parameter name denotes its entry value
+		if v, ok := paramVal(); ok {
+			return v, true
 		}
 	}
 	for _, fv := range x.fn.FreeVars {
@@ -1652,6 +1761,11 @@ func (x *Exec) lookupName(name string, at *ssa.BasicBlock, st *State, allowUndef
 					consider(in, true, b, i)
 				}
 			}
+		}
+	}
+	if best == nil {
+		if v, ok := paramVal(); ok {
+			return v, true
 		}
 	}
 	if best == nil && !allowUndef {
